@@ -442,17 +442,25 @@ func TestDoerner(t *testing.T) {
 // TestSweep (thorough) visits EVERY node of EVERY message kind of every protocol with the malformations that
 // most often expose a missing check (absent, null, wrong container, empty), one run per (node, malformation).
 func TestSweep(t *testing.T) {
-	sweep(t, append(append([]string{}, cheapProtos...), cmpProtos...), []string{"absent", "null", "empty-map", "empty-bytes", "type-int", "empty-array"}, 0)
+	sweep(t, append(append([]string{}, cheapProtos...), cmpProtos...), []string{"absent", "null", "empty-map", "empty-bytes", "type-int", "empty-array"}, 0, nil)
+}
+
+// TestSweepPrefix (quick) visits every length-prefixed binary field (polynomial exponents) of every message kind with
+// every hostile element count: maximal, zero, one too many, and the counts whose byte size wraps around 2^32.
+func TestSweepPrefix(t *testing.T) {
+	hasPrefix := func(n *mut.Node) bool { return n.K == mut.Bytes && n.Inner != nil && len(n.Prefix) == 4 }
+	sweep(t, []string{proto.FrostKeygen, proto.FrostKeygenTap, proto.FrostRefresh, proto.CMPKeygen}, []string{"count-prefix-max", "count-prefix-zero", "count-prefix-plus1",
+		"count-prefix-wrap", "count-prefix-wrap+1", "count-prefix-wrap+2", "count-prefix-wrap+3"}, 0, hasPrefix)
 }
 
 // TestSweepAbort (quick) is the part of the sweep that only a deviating presigner makes reachable: every node of the
 // messages of the identifiable-abort rounds of cmp presign (abort1 after a wrong delta, abort2 after a wrong chi),
 // absent or null.
 func TestSweepAbort(t *testing.T) {
-	sweep(t, []string{proto.CMPPresign}, []string{"absent", "null"}, 7)
+	sweep(t, []string{proto.CMPPresign}, []string{"absent", "null"}, 7, nil)
 }
 
-func sweep(t *testing.T, protos, kinds []string, minRound int) {
+func sweep(t *testing.T, protos, kinds []string, minRound int, filter func(*mut.Node) bool) {
 	rec := ev.Get()
 	i := 0
 	for _, p := range protos {
@@ -479,6 +487,9 @@ func sweep(t *testing.T, protos, kinds []string, minRound int) {
 					continue
 				}
 				for ni, r := range mut.Walk(root) {
+					if filter != nil && !filter(r.Node) {
+						continue
+					}
 					key := fmt.Sprintf("%d/%v/%s", m.RoundNumber, m.Broadcast, mut.Generic(r.Path))
 					if seen[key] {
 						continue
@@ -491,6 +502,10 @@ func sweep(t *testing.T, protos, kinds []string, minRound int) {
 						}
 						cc := c
 						cc.Kind, cc.SweepTemplate, cc.SweepNode = k, ti+1, ni
+						if strings.HasPrefix(k, "count-prefix-wrap+") {
+							// the same malformation for the other element sizes (Arg selects size and offset)
+							cc.Kind, cc.Arg = "count-prefix-wrap", int(k[len(k)-1]-'0')
+						}
 						// the victim is whoever the template is addressed to
 						for vi, id := range sessionOrder(c) {
 							if m.IsFor(id) {
